@@ -72,16 +72,18 @@ pub struct TM {
     live: Vec<bool>,
 }
 
-pub struct TaskFam;
+/// `TIME = true`: the sub-family `ttime` (programs that use the `trigger_timeouts` hook; kept apart
+/// because none of their executions may fail — see `program_set`)
+pub struct TaskFam<const TIME: bool>;
 
-impl Family for TaskFam {
+impl<const TIME: bool> Family for TaskFam<TIME> {
     type Op = TOp;
     type Res = TRes;
     type Cfg = TCfg;
     type Objs = TObjs;
     type Locals = ();
     type M = TM;
-    const NAME: &'static str = "ttask";
+    const NAME: &'static str = if TIME { "ttime" } else { "ttask" };
     const ASYNC: bool = true;
 
     fn make_objs(_cfg: &TCfg, _n: usize) -> TObjs {
@@ -258,7 +260,7 @@ impl Family for TaskFam {
 
     /// as in C17: the future of a joined task has been dropped before the join returns, the task
     /// performs no step afterwards, Cancelled iff it did not run to completion
-    fn monitor(p: &Program<TaskFam>, rec: &ExecRecord<TRes>) -> Option<(String, String)> {
+    fn monitor(p: &Program<TaskFam<TIME>>, rec: &ExecRecord<TRes>) -> Option<(String, String)> {
         for (i, e) in rec.log.iter().enumerate() {
             if let EKind::Ret(GRes::Joined(ok)) = &e.kind {
                 if let GOp::Join(c) = &p.threads[e.thread][e.op] {
@@ -308,8 +310,8 @@ enum Handle {
     Set(stk::task::AbortHandle),
 }
 
-struct Ctx {
-    prog: Arc<SS<Program<TaskFam>>>,
+struct Ctx<const TIME: bool> {
+    prog: Arc<SS<Program<TaskFam<TIME>>>>,
     objs: TObjs,
     handles: RefCell<Vec<Option<Handle>>>,
     joinset: RefCell<stk::task::JoinSet<u32>>,
@@ -345,7 +347,7 @@ impl<Fu: Future> Future for Logged<Fu> {
     }
 }
 
-fn run_task(ctx: Arc<SS<Ctx>>, t: usize) -> Pin<Box<dyn Future<Output = u32>>> {
+fn run_task<const TIME: bool>(ctx: Arc<SS<Ctx<TIME>>>, t: usize) -> Pin<Box<dyn Future<Output = u32>>> {
     Box::pin(async move {
         let c = &ctx.0;
         let me: usize = shuttle::current::me().into();
@@ -457,7 +459,7 @@ fn run_task(ctx: Arc<SS<Ctx>>, t: usize) -> Pin<Box<dyn Future<Output = u32>>> {
                 }
                 GOp::Op(o) => {
                     let mut unit = ();
-                    GRes::R(TaskFam::exec_async(&c.objs, &mut unit, t, o).await)
+                    GRes::R(TaskFam::<TIME>::exec_async(&c.objs, &mut unit, t, o).await)
                 }
                 GOp::ScopeBegin(_) | GOp::ScopeEnd => unreachable!("scope in an async program"),
             };
@@ -468,7 +470,7 @@ fn run_task(ctx: Arc<SS<Ctx>>, t: usize) -> Pin<Box<dyn Future<Output = u32>>> {
     })
 }
 
-fn make_body_tokio(prog: &Arc<SS<Program<TaskFam>>>, logs: &Logs<TRes>, auxs: &AuxLogs) -> Body {
+fn make_body_tokio<const TIME: bool>(prog: &Arc<SS<Program<TaskFam<TIME>>>>, logs: &Logs<TRes>, auxs: &AuxLogs) -> Body {
     let prog = prog.clone();
     let logs = SS(logs.clone());
     let auxs = SS(auxs.clone());
@@ -483,9 +485,9 @@ fn make_body_tokio(prog: &Arc<SS<Program<TaskFam>>>, logs: &Logs<TRes>, auxs: &A
         // harness hygiene: the wrapper's trigger table is a process-wide std thread-local that
         // survives executions; every execution starts from an empty one
         stk::time::clear_triggers();
-        let ctx = Arc::new(SS(Ctx {
+        let ctx = Arc::new(SS(Ctx::<TIME> {
             prog: prog.clone(),
-            objs: TaskFam::make_objs(&prog.get().cfg, n),
+            objs: TaskFam::<TIME>::make_objs(&prog.get().cfg, n),
             handles: RefCell::new((0..n).map(|_| None).collect()),
             joinset: RefCell::new(stk::task::JoinSet::new()),
             stash: RefCell::new(Vec::new()),
@@ -497,7 +499,7 @@ fn make_body_tokio(prog: &Arc<SS<Program<TaskFam>>>, logs: &Logs<TRes>, auxs: &A
     })
 }
 
-impl XFamily for TaskFam {
+impl<const TIME: bool> XFamily for TaskFam<TIME> {
     fn body(prog: &Arc<SS<Program<Self>>>, logs: &Logs<TRes>, auxs: &AuxLogs) -> Body {
         make_body_tokio(prog, logs, auxs)
     }
@@ -511,9 +513,12 @@ fn g(ops: &[TOp]) -> Vec<GOp<TOp>> {
     ops.iter().cloned().map(GOp::Op).collect()
 }
 
-pub fn program_set(set: &str) -> Vec<Program<TaskFam>> {
+pub fn program_set<const TIME: bool>(set: &str) -> Vec<Program<TaskFam<TIME>>> {
     let thorough = set == "thorough";
-    let mut out: Vec<Program<TaskFam>> = Vec::new();
+    let mut out: Vec<Program<TaskFam<TIME>>> = Vec::new();
+    if TIME {
+        return time_programs(thorough);
+    }
     let bodies: Vec<Vec<TOp>> = vec![
         vec![],
         vec![TOp::Yield],
@@ -621,19 +626,6 @@ pub fn program_set(set: &str) -> Vec<Program<TaskFam>> {
             }
         }
     }
-    // timeouts forced by the trigger hook (main clears the process-wide trigger table first)
-    for child in [vec![TOp::TimeoutAcquire], vec![TOp::TimeoutAcquire, TOp::TimeoutAcquire], vec![TOp::Yield, TOp::TimeoutAcquire]] {
-        for mid in [vec![TOp::TriggerAll], vec![TOp::TriggerAll, TOp::ClearTriggers], vec![TOp::AddPermit, TOp::TriggerAll], vec![TOp::TriggerAll, TOp::AddPermit]] {
-            let mut main = vec![GOp::Spawn(1)];
-            main.extend(g(&mid));
-            main.push(GOp::Join(1));
-            main.push(GOp::Op(TOp::ClearTriggers));
-            out.push(Program {
-                cfg: TCfg { joinset: vec![] },
-                threads: vec![main, g(&child)],
-            });
-        }
-    }
     // nested spawn: task 1 spawns task 2 and awaits / detaches / aborts it
     for b2 in bodies.iter().take(6) {
         for variant in 0..4 {
@@ -654,6 +646,53 @@ pub fn program_set(set: &str) -> Vec<Program<TaskFam>> {
                 out.push(Program {
                     cfg: TCfg { joinset: vec![] },
                     threads: vec![main, t1.clone(), g(b2)],
+                });
+            }
+        }
+    }
+    out.sort_by_key(|p| p.size());
+    out
+}
+
+/// Timeouts forced by the wrapper's `trigger_timeouts` hook.  The wrapper keeps its table of live
+/// timeouts in a plain `std` thread-local; an execution that FAILS with a timeout still pending
+/// leaves its entry behind, and `trigger_timeouts` in any later execution on that thread then
+/// panics (`probe-timeleak deadlock` reproduces it without the explorer).  That is a defect of
+/// isolation between executions (C14), not of the operation's contract; so that the verdicts of
+/// this check do not depend on which programs a worker process has run before, the programs that
+/// call the hook live in a family of their own in which no execution can fail.
+fn time_programs<const TIME: bool>(thorough: bool) -> Vec<Program<TaskFam<TIME>>> {
+    let mut out = Vec::new();
+    let mut children = vec![vec![TOp::TimeoutAcquire], vec![TOp::TimeoutAcquire, TOp::TimeoutAcquire], vec![TOp::Yield, TOp::TimeoutAcquire]];
+    if thorough {
+        children.push(vec![TOp::TimeoutAcquire, TOp::Yield, TOp::TimeoutAcquire]);
+        children.push(vec![TOp::Sleep, TOp::TimeoutAcquire]);
+    }
+    let mut mids = vec![vec![TOp::TriggerAll], vec![TOp::AddPermit, TOp::TriggerAll], vec![TOp::TriggerAll, TOp::AddPermit], vec![TOp::Yield, TOp::TriggerAll]];
+    if thorough {
+        mids.push(vec![TOp::AddPermit, TOp::AddPermit, TOp::TriggerAll]);
+        mids.push(vec![TOp::TriggerAll, TOp::ClearTriggers, TOp::TriggerAll]);
+    }
+    for child in &children {
+        for mid in &mids {
+            let mut main = vec![GOp::Spawn(1)];
+            main.extend(g(mid));
+            main.push(GOp::Join(1));
+            main.push(GOp::Op(TOp::ClearTriggers));
+            out.push(Program {
+                cfg: TCfg { joinset: vec![] },
+                threads: vec![main, g(child)],
+            });
+            // two tasks with timeouts
+            let mut main2 = vec![GOp::Spawn(1), GOp::Spawn(2)];
+            main2.extend(g(mid));
+            main2.push(GOp::Join(1));
+            main2.push(GOp::Join(2));
+            main2.push(GOp::Op(TOp::ClearTriggers));
+            if thorough || child.len() == 1 {
+                out.push(Program {
+                    cfg: TCfg { joinset: vec![] },
+                    threads: vec![main2, g(child), g(&[TOp::TimeoutAcquire])],
                 });
             }
         }
